@@ -42,6 +42,18 @@ use super::{
     ParserInput,
 };
 
+/// Parse the optional sign of a literal operand, returning whether the literal is negated.
+/// Only `-` is a valid sign; any other operator is a syntax error.
+fn parse_literal_sign<'a>(input: ParserInput<'a>) -> InternalParserResult<'a, bool> {
+    match super::split_first_token(input) {
+        Some((Token::Operator(Operator::Minus), remainder)) => Ok((remainder, true)),
+        Some((token @ Token::Operator(_), _)) => {
+            expected_token!(input, token, "a literal or a memory reference".to_owned())
+        }
+        _ => Ok((input, false)),
+    }
+}
+
 /// Parse the operand of an arithmetic instruction, which may be a literal integer, literal real
 /// number, or memory reference.
 pub(crate) fn parse_arithmetic_operand<'a>(
@@ -49,24 +61,16 @@ pub(crate) fn parse_arithmetic_operand<'a>(
 ) -> InternalParserResult<'a, ArithmeticOperand> {
     alt((
         map(
-            tuple((opt(token!(Operator(o))), token!(Float(v)))),
-            |(op, v)| {
-                let sign = match op {
-                    None => 1f64,
-                    Some(Operator::Minus) => -1f64,
-                    _ => panic!("Implement this error"), // TODO
-                };
+            tuple((parse_literal_sign, token!(Float(v)))),
+            |(negative, v)| {
+                let sign = if negative { -1f64 } else { 1f64 };
                 ArithmeticOperand::LiteralReal(sign * v)
             },
         ),
         map(
-            tuple((opt(token!(Operator(o))), token!(Integer(v)))),
-            |(op, v)| {
-                let sign = match op {
-                    None => 1,
-                    Some(Operator::Minus) => -1,
-                    _ => panic!("Implement this error"), // TODO
-                };
+            tuple((parse_literal_sign, token!(Integer(v)))),
+            |(negative, v)| {
+                let sign = if negative { -1 } else { 1 };
                 ArithmeticOperand::LiteralInteger(sign * (v as i64))
             },
         ),
@@ -81,24 +85,16 @@ pub(crate) fn parse_comparison_operand<'a>(
 ) -> InternalParserResult<'a, ComparisonOperand> {
     alt((
         map(
-            tuple((opt(token!(Operator(o))), token!(Float(v)))),
-            |(op, v)| {
-                let sign = match op {
-                    None => 1f64,
-                    Some(Operator::Minus) => -1f64,
-                    _ => panic!("Implement this error"), // TODO
-                };
+            tuple((parse_literal_sign, token!(Float(v)))),
+            |(negative, v)| {
+                let sign = if negative { -1f64 } else { 1f64 };
                 ComparisonOperand::LiteralReal(sign * v)
             },
         ),
         map(
-            tuple((opt(token!(Operator(o))), token!(Integer(v)))),
-            |(op, v)| {
-                let sign = match op {
-                    None => 1,
-                    Some(Operator::Minus) => -1,
-                    _ => panic!("Implement this error"), // TODO
-                };
+            tuple((parse_literal_sign, token!(Integer(v)))),
+            |(negative, v)| {
+                let sign = if negative { -1 } else { 1 };
                 ComparisonOperand::LiteralInteger(sign * (v as i64))
             },
         ),
@@ -112,13 +108,9 @@ pub(crate) fn parse_binary_logic_operand<'a>(
 ) -> InternalParserResult<'a, BinaryOperand> {
     alt((
         map(
-            tuple((opt(token!(Operator(o))), token!(Integer(v)))),
-            |(op, v)| {
-                let sign = match op {
-                    None => 1,
-                    Some(Operator::Minus) => -1,
-                    _ => panic!("Implement this error"), // TODO
-                };
+            tuple((parse_literal_sign, token!(Integer(v)))),
+            |(negative, v)| {
+                let sign = if negative { -1 } else { 1 };
                 BinaryOperand::LiteralInteger(sign * (v as i64))
             },
         ),
